@@ -138,6 +138,7 @@ bool TlsWorld::setup(const PairCfg &c) {
     else if (pc.client_auth) { s.ca_mask = 1u << KK_RSA2048; }
     k.identity = pc.client_identity; k.forge_cert_sig = pc.forge_client_cert;
     k.psk = pc.psk; k.tls13_psk = pc.tls13_ext_psk;
+    if (pc.tls13_ext_psk && !pc.suites.empty()) { s.tls13_psk_cipher = k.tls13_psk_cipher = pc.suites[0]; }
     if (pc.server_identity != KK_NONE) {
         if (pc.client_trusts_server) { k.ca_mask = 1u << pc.server_identity; }
         else { k.ca_mask = 1u << (pc.server_identity == KK_EC384 ? KK_EC521 : KK_EC384); }   // some other CA: unknown issuer
